@@ -60,7 +60,7 @@ fn run_one(args: &[String], stdin: Option<&str>) -> Result<(Option<i32>, String,
 }
 
 pub fn check(deep: bool, runs: &mut usize, fails: &mut Vec<Failure>) {
-    let mut rng = Rng(0xC16C16);
+    let mut rng = Rng(0xC16C16 ^ crate::dom::run_seed().wrapping_mul(0x9E3779B97F4A7C15) | 1);
     let n_mut = if deep { 40 } else { 6 };
     let mut jobs: Vec<(Vec<String>, Option<String>, Vec<(String, String)>, String)> = Vec::new(); // args, stdin, files, description
     let with_mut = |base: &[&str], rng: &mut Rng| -> Vec<String> { let mut v: Vec<String> = base.iter().map(|s| s.to_string()).collect(); for s in base { for _ in 0..n_mut { v.push(mutate(s, rng)); } } v };
